@@ -222,6 +222,10 @@ class PropertyDescriptor(Symbol):
         :param obj: The owner instance.
         :return: The value with a monitored container-type if it is iterable, otherwise the value itself.
         """
+        if self.is_iterable and isinstance(value, MonitoredContainer):
+            # the managed field of another instance: do not adopt its container, the two fields would share their
+            # contents and the container can only be bound to one owner.
+            return type(value)(descriptor=self)
         if self.is_iterable and not isinstance(value, MonitoredContainer):
             try:
                 monitored_type = monitored_type_map[type(value)]
